@@ -326,6 +326,9 @@ func pidListensOn(pid int, port string) bool {
 	return false
 }
 
+// PidListensOn is the exported form.
+func PidListensOn(pid int, port string) bool { return pidListensOn(pid, port) }
+
 // FreePort picks a currently free loopback port.
 func FreePort() int {
 	ln, err := net.Listen("tcp4", "127.0.0.1:0")
